@@ -1,25 +1,32 @@
 package main
 
 // Listener scenarios (Scenario.Mode == "listen"): the ACCEPTING side's rendezvous API of the ibb
-// package - Listener.Accept, Listener.Expect, Listener.Close - against the real serve loop that
-// handles real open requests of the peer session.  One trace per schedule, validated against
-// tla/IBBListen.tla (TrIBBListen.tla).
+// package - Handler.Listen, Listener.Accept, Listener.Expect, Listener.Close - against the real serve
+// loops that handle real open requests of the peer sessions.  One trace per schedule, validated
+// against tla/IBBListen.tla (TrIBBListen.tla).
+//
+// The accepting application has session b (peer a) and, with Scenario.Pair2, a second served session
+// c (peer d); b and c share ONE ibb.Handler.  Op.E names the session an operation belongs to: the
+// session whose listener is used (expect, accept, lclose, listen) or that the request is sent to
+// (open, ping: performed by the peer of that session).
 //
 // Every call has a name (Op.C) and a context of its own.  Events:
 //
-//	expect_call {c,key} / expect_ret {c,out,key}    out: stream | ctx | closed | other:<error>
-//	accept_call {c}     / accept_ret {c,out,key}
-//	req_call {c,kind,key} / req_ret {c,out}         Open or an unrelated request of the peer; out: ok | err | ctx
-//	cancel {c}                                       logged BEFORE the context is cancelled
-//	lclose_call / lclose_ret                         Listener.Close
-//	wire / deliver / reply                           as in the byte-pipe scenarios, plus the name of the request
-//	stuck {blocked:[{c,in}], serving}                every goroutine is blocked (TrStuck judges)
+//	expect_call {c,l,key} / expect_ret {c,out,key}   out: stream | ctx | closed | other:<error>
+//	accept_call {c,l}     / accept_ret {c,out,key}
+//	req_call {c,l,kind,key} / req_ret {c,out}        Open or an unrelated request of the peer; out: ok | err | ctx
+//	cancel {c}                                        logged BEFORE the context is cancelled
+//	lclose_call {c,l} / lclose_ret {c}                Listener.Close (any number of times)
+//	listen_call {c,l} / listen_ret {c,ok}             Handler.Listen(session l); ok: a listener was returned, the
+//	                                                  same one as before if the session had one
+//	wire / deliver / reply                            as in the byte-pipe scenarios, plus the name of the request
+//	stuck {blocked:[{c,in}], serving:{b,c}}           every goroutine is blocked (TrStuck judges)
 //
 // When every goroutine is blocked the driver records `stuck` and then lets the environment do what a
 // real application / peer may legitimately do next, one step at a time: (1) every caller that is
-// still waiting goes away (its context is cancelled), (2) somebody calls Accept while the serve loop
-// waits in a handler, (3) the listener is closed.  After each step the run continues; the
-// specification judges every `stuck` state and the final state.
+// still waiting goes away (its context is cancelled), (2) somebody calls Accept on the listener of a
+// session whose serve loop waits in a handler, (3) a listener with a waiting Accept is closed.  After
+// each step the run continues; the specification judges every `stuck` state and the final state.
 
 import (
 	"context"
@@ -48,14 +55,16 @@ type lsnState struct {
 	cancelled map[string]bool
 	curCall   map[string]string // proc -> call in progress
 	curKind   map[string]string // proc -> expect | accept | open | ping | ...
+	curL      map[string]string // proc -> session of the call in progress
 	idc       map[string]string // stanza id -> request name
-	serving   bool              // the handler of the accepting side is running
-	lclosed   bool
+	serving   map[string]bool   // the handler of accepting session b / c is running
+	lclosed   map[string]bool   // Close has been called on the listener of session b / c
 }
 
 func newLsn(sc Scenario) *lsnState {
 	l := &lsnState{ctx: map[string]context.Context{}, cancel: map[string]context.CancelFunc{}, cancelled: map[string]bool{},
-		curCall: map[string]string{}, curKind: map[string]string{}, idc: map[string]string{}}
+		curCall: map[string]string{}, curKind: map[string]string{}, curL: map[string]string{}, idc: map[string]string{},
+		serving: map[string]bool{"b": false, "c": false}, lclosed: map[string]bool{}}
 	for _, p := range sc.Procs {
 		for _, o := range p.Ops {
 			switch o.Op {
@@ -67,8 +76,12 @@ func newLsn(sc Scenario) *lsnState {
 	return l
 }
 
-func (l *lsnState) setServing(v bool) { l.mu.Lock(); l.serving = v; l.mu.Unlock() }
-func (l *lsnState) isServing() bool   { l.mu.Lock(); defer l.mu.Unlock(); return l.serving }
+func (l *lsnState) setServing(e string, v bool) { l.mu.Lock(); l.serving[e] = v; l.mu.Unlock() }
+func (l *lsnState) servingNow() map[string]bool {
+	l.mu.Lock()
+	defer l.mu.Unlock()
+	return map[string]bool{"b": l.serving["b"], "c": l.serving["c"]}
+}
 
 // decorate adds the name of the request to a wire / deliver / reply event.  A request on the wire is
 // attributed to the call in progress of the goroutine that writes it.
@@ -90,24 +103,24 @@ func (l *lsnState) cancellable(c string) bool {
 	return l.cancel[c] != nil && !l.cancelled[c]
 }
 
-func (l *lsnState) isClosed() bool { l.mu.Lock(); defer l.mu.Unlock(); return l.lclosed }
+func (l *lsnState) isClosed(e string) bool { l.mu.Lock(); defer l.mu.Unlock(); return l.lclosed[e] }
 
-func (l *lsnState) begin(p, c, kind string) {
+func (l *lsnState) begin(p, c, kind, e string) {
 	l.mu.Lock()
-	l.curCall[p], l.curKind[p] = c, kind
+	l.curCall[p], l.curKind[p], l.curL[p] = c, kind, e
 	l.mu.Unlock()
 }
 
 func (l *lsnState) end(p string) {
 	l.mu.Lock()
-	l.curCall[p], l.curKind[p] = "", ""
+	l.curCall[p], l.curKind[p], l.curL[p] = "", "", ""
 	l.mu.Unlock()
 }
 
-func (l *lsnState) current(p string) (string, string) {
+func (l *lsnState) current(p string) (string, string, string) {
 	l.mu.Lock()
 	defer l.mu.Unlock()
-	return l.curCall[p], l.curKind[p]
+	return l.curCall[p], l.curKind[p], l.curL[p]
 }
 
 func lsnKey(from, sid string) string {
@@ -136,7 +149,11 @@ func callOutcome(err error) string {
 // lexec performs one operation of a listener scenario.
 func (w *World) lexec(p string, o Op) {
 	l := w.lsn
-	l.begin(p, o.C, o.Op)
+	e := o.E
+	if e != "c" {
+		e = "b"
+	}
+	l.begin(p, o.C, o.Op, e)
 	defer l.end(p)
 	switch o.Op {
 	case "expect":
@@ -145,27 +162,29 @@ func (w *World) lexec(p string, o Op) {
 		if o.From != "" {
 			from = jid.MustParse(o.From)
 		}
-		w.lg.Add(vt.Ev{"ev": "expect_call", "p": p, "c": o.C, "key": key})
-		out, got := "other:no listener", ""
-		if w.ln != nil {
-			w.guard(p, "b", "expect", func() {
-				out = "other:panic"
-				c, err := w.ln.Expect(l.ctx[o.C], from, o.Sid)
-				out = callOutcome(err)
-				if ic, ok := c.(*ibb.Conn); ok && err == nil {
-					out, got = "stream", ":"+ic.SID()
-				}
-			})
+		ln := w.getLn(e)
+		if ln == nil {
+			panic("scenario: expect on a session without listener")
 		}
+		w.lg.Add(vt.Ev{"ev": "expect_call", "p": p, "c": o.C, "l": e, "key": key})
+		out, got := "other:panic", ""
+		w.guard(p, e, "expect", func() {
+			c, err := ln.Expect(l.ctx[o.C], from, o.Sid)
+			out = callOutcome(err)
+			if ic, ok := c.(*ibb.Conn); ok && err == nil {
+				out, got = "stream", ":"+ic.SID()
+			}
+		})
 		w.lg.Add(vt.Ev{"ev": "expect_ret", "p": p, "c": o.C, "out": out, "key": got})
 	case "accept":
-		if w.ln == nil {
-			return
+		ln := w.getLn(e)
+		if ln == nil {
+			panic("scenario: accept on a session without listener")
 		}
-		w.lg.Add(vt.Ev{"ev": "accept_call", "p": p, "c": o.C})
+		w.lg.Add(vt.Ev{"ev": "accept_call", "p": p, "c": o.C, "l": e})
 		out, got := "other:panic", ""
-		w.guard(p, "b", "accept", func() {
-			c, err := w.ln.Accept()
+		w.guard(p, e, "accept", func() {
+			c, err := ln.Accept()
 			out = callOutcome(err)
 			if ic, ok := c.(*ibb.Conn); ok && err == nil {
 				out, got = "stream", ":"+ic.SID()
@@ -175,12 +194,27 @@ func (w *World) lexec(p string, o Op) {
 	case "cancel":
 		w.lcancel(o.C)
 	case "lclose":
-		w.lclose(p)
+		c := o.C
+		if c == "" {
+			c = "c1"
+		}
+		w.lclose(p, c, e)
+	case "listen":
+		prev := w.getLn(e)
+		w.lg.Add(vt.Ev{"ev": "listen_call", "p": p, "c": o.C, "l": e})
+		var ln *ibb.Listener
+		w.guard(p, e, "listen", func() { ln = w.h["b"].Listen(w.sess[e]) })
+		ok := ln != nil && (prev == nil || prev == ln || l.isClosed(e))
+		if ln != nil {
+			w.setLn(e, ln)
+		}
+		w.lg.Add(vt.Ev{"ev": "listen_ret", "p": p, "c": o.C, "ok": ok})
 	case "open":
-		w.lg.Add(vt.Ev{"ev": "req_call", "p": p, "c": o.C, "kind": "open", "key": lsnKey("", o.Sid)})
+		from := peerOf(e)
+		w.lg.Add(vt.Ev{"ev": "req_call", "p": p, "c": o.C, "l": e, "kind": "open", "key": lsnKey("", o.Sid)})
 		out := "other:panic"
-		w.guard(p, "a", "open", func() {
-			c, err := w.h["a"].OpenIQ(l.ctx[o.C], stanza.IQ{To: jid.MustParse("b@example.net")}, w.sess["a"], true, 0, o.Sid)
+		w.guard(p, from, "open", func() {
+			c, err := w.h[from].OpenIQ(l.ctx[o.C], stanza.IQ{To: jid.MustParse(e + "@example.net")}, w.sess[from], true, 0, o.Sid)
 			out = callOutcome(err)
 			if err == nil && c == nil {
 				out = "other:nil conn"
@@ -188,12 +222,13 @@ func (w *World) lexec(p string, o Op) {
 		})
 		w.lg.Add(vt.Ev{"ev": "req_ret", "p": p, "c": o.C, "out": out})
 	case "ping":
-		w.lg.Add(vt.Ev{"ev": "req_call", "p": p, "c": o.C, "kind": "ping", "key": "-"})
+		from := peerOf(e)
+		w.lg.Add(vt.Ev{"ev": "req_call", "p": p, "c": o.C, "l": e, "kind": "ping", "key": "-"})
 		out := "other:panic"
-		w.guard(p, "a", "ping", func() {
-			err := w.sess["a"].UnmarshalIQElement(l.ctx[o.C],
+		w.guard(p, from, "ping", func() {
+			err := w.sess[from].UnmarshalIQElement(l.ctx[o.C],
 				xmlstream.Wrap(nil, xml.StartElement{Name: xml.Name{Space: "urn:xmpp:ping", Local: "ping"}}),
-				stanza.IQ{Type: stanza.GetIQ, To: jid.MustParse("b@example.net")}, nil)
+				stanza.IQ{Type: stanza.GetIQ, To: jid.MustParse(e + "@example.net")}, nil)
 			out = callOutcome(err)
 		})
 		w.lg.Add(vt.Ev{"ev": "req_ret", "p": p, "c": o.C, "out": out})
@@ -215,24 +250,25 @@ func (w *World) lcancel(c string) {
 	cancel()
 }
 
-func (w *World) lclose(p string) {
+// lclose: Listener.Close call c on the listener of session e (as often as the scenario says)
+func (w *World) lclose(p, c, e string) {
 	l := w.lsn
-	l.mu.Lock()
-	done := l.lclosed
-	l.lclosed = true
-	l.mu.Unlock()
-	if w.ln == nil || done {
-		return
+	ln := w.getLn(e)
+	if ln == nil {
+		panic("scenario: lclose on a session without listener")
 	}
-	w.lg.Add(vt.Ev{"ev": "lclose_call", "p": p})
-	w.guard(p, "b", "lclose", func() { w.ln.Close() })
-	w.lg.Add(vt.Ev{"ev": "lclose_ret", "p": p})
+	l.mu.Lock()
+	l.lclosed[e] = true
+	l.mu.Unlock()
+	w.lg.Add(vt.Ev{"ev": "lclose_call", "p": p, "c": c, "l": e})
+	w.guard(p, e, "lclose", func() { ln.Close() })
+	w.lg.Add(vt.Ev{"ev": "lclose_ret", "p": p, "c": c})
 }
 
 // installGates makes transport reads / writes and the package's yield points scheduling points
 // (same arrangement as runSched).
 func (w *World) installGates(sched *vt.Sched) {
-	for _, e := range []string{"a", "b"} {
+	for _, e := range w.ends {
 		e := e
 		w.conn[e].Starve = nil
 		w.conn[e].Gate = func(point string) {
@@ -280,7 +316,7 @@ func runListen(sc Scenario, seed int64, choices []int) result {
 	w.installGates(sched)
 	defer func() { ibb.VerifHook = nil }()
 	sched.Enabled = false
-	for _, e := range []string{"a", "b"} {
+	for _, e := range w.ends {
 		e := e
 		sched.Go("s"+e, func() { w.serveEnded(e, w.sess[e].Serve(w.handler(e))) })
 	}
@@ -292,7 +328,7 @@ func runListen(sc Scenario, seed int64, choices []int) result {
 		w.pe[p.Name] = "b"
 		sched.Go(p.Name, func() {
 			for _, o := range p.Ops {
-				if o.Op == "cancel" || o.Op == "lclose" {
+				if o.Op == "cancel" || o.Op == "lclose" || o.Op == "listen" {
 					sched.Gate(o.Op) // a scheduling point of its own
 				}
 				w.lexec(p.Name, o)
@@ -309,20 +345,21 @@ func runListen(sc Scenario, seed int64, choices []int) result {
 			if w.isFin(n) {
 				continue
 			}
-			c, kind := w.lsn.current(n)
-			bl = append(bl, vt.Ev{"p": n, "c": c, "in": kind})
+			c, kind, e := w.lsn.current(n)
+			bl = append(bl, vt.Ev{"p": n, "c": c, "in": kind, "l": e})
 		}
 		sort.Slice(bl, func(i, j int) bool { return bl[i]["p"].(string) < bl[j]["p"].(string) })
 		return bl
 	}
-	ended, lateUsed := false, false
+	ended, lateUsed, envClosed := false, map[string]bool{}, map[string]bool{}
 	finish := func() {
 		ended = true
 		w.lg.Add(vt.Ev{"ev": "end"})
 		w.setOver()
 		w.imu.Lock()
-		w.conn["a"].CloseIn()
-		w.conn["b"].CloseIn()
+		for _, e := range w.ends {
+			w.conn[e].CloseIn()
+		}
 		w.icond.Broadcast()
 		w.imu.Unlock()
 	}
@@ -331,8 +368,8 @@ func runListen(sc Scenario, seed int64, choices []int) result {
 			return false
 		}
 		bl := blocked()
-		serving := w.lsn.isServing()
-		if len(bl) > 0 || serving {
+		serving := w.lsn.servingNow()
+		if len(bl) > 0 || serving["b"] || serving["c"] {
 			w.lg.Add(vt.Ev{"ev": "stuck", "blocked": bl, "serving": serving, "status": fmt.Sprint(sched.Blocked())})
 		}
 		// (1) every caller that is still waiting goes away
@@ -346,21 +383,33 @@ func runListen(sc Scenario, seed int64, choices []int) result {
 		if n > 0 {
 			return true
 		}
-		accepting := false
+		accepting := map[string]bool{}
 		for _, b := range bl {
 			if b["in"] == "accept" {
-				accepting = true
+				accepting[b["l"].(string)] = true
 			}
 		}
-		// (2) somebody accepts what the serve loop is holding
-		if serving && !accepting && !lateUsed && w.ln != nil && !w.lsn.isClosed() {
-			lateUsed = true
-			startProc(Proc{Name: "zlate", Ops: []Op{{Op: "accept", C: "aL"}}})
+		// (2) somebody accepts what a serve loop is holding
+		for _, e := range []string{"b", "c"} {
+			if serving[e] && !accepting[e] && !lateUsed[e] && w.getLn(e) != nil && !w.lsn.isClosed(e) {
+				lateUsed[e] = true
+				startProc(Proc{Name: "zlate" + e, Ops: []Op{{Op: "accept", C: "aL" + e, E: e}}})
+				n++
+			}
+		}
+		if n > 0 {
 			return true
 		}
-		// (3) the listener is closed: pending Accept calls return
-		if accepting && w.ln != nil && !w.lsn.isClosed() {
-			w.lclose("env")
+		// (3) a listener with a waiting Accept is closed: pending Accept calls return.  (A goroutine of its
+		// own: if that Close blocks, the next `stuck` state shows it.)
+		for _, e := range []string{"b", "c"} {
+			if accepting[e] && w.getLn(e) != nil && !envClosed[e] {
+				envClosed[e] = true
+				startProc(Proc{Name: "zclose" + e, Ops: []Op{{Op: "lclose", C: "cE" + e, E: e}}})
+				n++
+			}
+		}
+		if n > 0 {
 			return true
 		}
 		finish()
